@@ -463,6 +463,9 @@ impl Expression for ExpressionAssignUndefined {
             match left_result {
                 Err(err) => Err(err),
                 Ok(left_value) => {
+                    if left_value.is_readonly() {
+                        return Err(format!("Can't set read-only {left_value}"));
+                    }
                     if Arc::ptr_eq(&left_value.arc, &right_result.arc) {
                         // Same object on both sides: nothing to copy, and locking twice would dead-lock.
                         return Ok(left_value.clone());
